@@ -186,6 +186,9 @@ fn gen_tx(rng: &mut Rng, out: &mut Vec<String>) {
                     let cap = bs - 24;
                     let t = *rng.pick(&[cap + 1, 2 * cap + 1]);
                     c11::read_request_padded(rng, 1, Some(t))
+                } else if rng.chance(1, 3) {
+                    let nonce = *rng.pick(&[0usize, 0, 32, 8200]);
+                    c11::channel_message(*rng.pick(&["opn-req", "clo-req"]), nonce)
                 } else {
                     let k = rng.below(4) as usize;
                     c11::read_request(rng, k)
@@ -217,6 +220,9 @@ fn gen_mw(rng: &mut Rng, out: &mut Vec<String>) {
                 let m = if rng.chance(1, 8) {
                     let t = *rng.pick(&[1100usize, 1124, 1125, 9219, 9220, 9221, 20000]);
                     c11::read_request_padded(rng, 1, Some(t))
+                } else if rng.chance(1, 3) {
+                    let nonce = *rng.pick(&[0usize, 0, 32, 900, 1100]);
+                    c11::channel_message(*rng.pick(&["opn-resp", "clo-resp"]), nonce)
                 } else {
                     let k = rng.below(4) as usize;
                     c11::read_request(rng, k)
@@ -231,12 +237,155 @@ fn gen_mw(rng: &mut Rng, out: &mut Vec<String>) {
     out.push("mtake".to_string());
 }
 
+
+// ------------------------------------------------------------------------------------------------
+// systematic part: validate_chunks / client receive path / MessageWriter with every guard at its boundary
+// ------------------------------------------------------------------------------------------------
+
+fn gen_systematic(out: &mut Vec<String>) {
+    const MAX: u64 = u32::MAX as u64;
+    // validate_chunks: start vs first, number of chunks, one perturbation at each position
+    out.push("reset val".to_string());
+    for chan in [0u64, 1] {
+        for start in [0u64, 1, 5, MAX - 1, MAX] {
+            for first in [start.saturating_sub(2), start.saturating_sub(1), start, (start + 1).min(MAX), (start + 3).min(MAX)] {
+                for n in 0..4u64 {
+                    let plain: Vec<(u64, u64, u64)> = (0..n).map(|i| (if chan == 0 { 3 } else { chan }, first + i, 7)).collect();
+                    let show = |v: &Vec<(u64, u64, u64)>, bad: Option<usize>| -> String {
+                        let parts: Vec<String> = v
+                            .iter()
+                            .enumerate()
+                            .map(|(i, (c, s, r))| if Some(i) == bad { "bad".to_string() } else { format!("{}:{}:{}", c, (*s).min(MAX), r) })
+                            .collect();
+                        format!("validate {} {} [{}]", start, chan, parts.join(","))
+                    };
+                    if plain.iter().all(|x| x.1 <= MAX) || n <= 2 {
+                        out.push(show(&plain, None));
+                    }
+                    if start > 5 && start < MAX - 1 {
+                        continue;
+                    }
+                    for i in 0..n as usize {
+                        out.push(show(&plain, Some(i)));
+                        for kind in 0..4 {
+                            let mut v = plain.clone();
+                            match kind {
+                                0 => v[i].0 += 1,
+                                1 => v[i].1 = v[i].1.saturating_sub(1),
+                                2 => v[i].1 = (v[i].1 + 1).min(MAX),
+                                _ => v[i].2 += 1,
+                            }
+                            out.push(show(&v, None));
+                        }
+                    }
+                }
+            }
+        }
+    }
+    // chunk lists that end exactly at / one past u32::MAX
+    for n in 1..4u64 {
+        for end in [MAX - 1, MAX, MAX + 1] {
+            if end + 1 < n {
+                continue;
+            }
+            let first = end + 1 - n;
+            let parts: Vec<String> = (0..n).map(|i| format!("1:{}:7", (first + i).min(MAX))).collect();
+            out.push(format!("validate {} 1 [{}]", first.min(MAX), parts.join(",")));
+        }
+    }
+    // client receive path: max_pending_incoming at its boundary, abort, unknown request, merge shapes, flags, marks
+    for mp in [0u64, 1, 2, 3] {
+        for k in 0..mp + 3 {
+            out.push(format!("reset cli {} 1", mp));
+            out.push("req".to_string());
+            for i in 0..k {
+                out.push(format!("cchunk 1:{}:1001 C", i + 1));
+            }
+            out.push(format!("cchunk 1:{}:1001 F", k + 1));
+        }
+    }
+    let shapes: [(&str, &[(u64, u64, &str)]); 14] = [
+        ("in order", &[(1, 1, "C"), (1, 2, "C"), (1, 3, "F")]),
+        ("reordered", &[(1, 2, "C"), (1, 1, "C"), (1, 3, "F")]),
+        ("duplicate", &[(1, 1, "C"), (1, 1, "C"), (1, 2, "F")]),
+        ("gap", &[(1, 1, "C"), (1, 3, "F")]),
+        ("final first", &[(1, 2, "C"), (1, 1, "F")]),
+        ("early final flag", &[(1, 1, "F")]),
+        ("abort empty", &[(1, 1, "A"), (1, 2, "F")]),
+        ("abort nonempty", &[(1, 1, "C"), (1, 2, "A"), (1, 3, "F")]),
+        ("foreign channel first", &[(2, 1, "C"), (1, 2, "F")]),
+        ("foreign channel later", &[(1, 1, "C"), (2, 2, "F")]),
+        ("zero", &[(1, 0, "F")]),
+        ("wrap", &[(1, MAX - 1, "C"), (1, MAX, "F")]),
+        ("wrap dup", &[(1, MAX, "C"), (1, MAX, "F")]),
+        ("at max single", &[(1, MAX, "F")]),
+    ];
+    for chan in [0u64, 1] {
+        for (_, shape) in shapes.iter() {
+            out.push(format!("reset cli 5 {}", chan));
+            out.push("req".to_string());
+            out.push("req".to_string());
+            out.push("cchunk 1:1:999 F".to_string()); // unknown request id
+            for (c, s, f) in shape.iter() {
+                out.push(format!("cchunk {}:{}:1001 {}", c, s, f));
+            }
+            // a second response: next number, stale number, after the mark reached u32::MAX
+            out.push("cchunk 1:4:1002 C".to_string());
+            out.push("cchunk 1:5:1002 F".to_string());
+            out.push("cchunk 1:5:1002 F".to_string());
+        }
+    }
+    // sender: sequence numbers across MSG / OPN / CLO messages (one and two chunks), also near the u32 boundary
+    for ctr in [None, Some(4294967292u64)] {
+        out.push("reset tx 8196 0 0 3 9 1".to_string());
+        if let Some(c) = ctr {
+            out.push(format!("setctr 1000 {}", c));
+        }
+        for (kind, nonce) in [("opn-req", 0usize), ("msg", 0), ("opn-req", 8200), ("clo-req", 0), ("msg", 0)] {
+            let m = if kind == "msg" { c11::read_request(&mut Rng::new(3), 1) } else { c11::channel_message(kind, nonce) };
+            let (nid, bytes) = c11::message_bytes(&m);
+            out.push(format!("write {} {} x{}", 40 + nonce % 7, nid, hex(&bytes)));
+            out.push("nextid".to_string());
+            out.push("pump [100000,100000,100000]".to_string());
+        }
+    }
+    for kind in ["opn-resp", "clo-resp"] {
+        out.push("reset mw 8196 0 0 3 9 0".to_string());
+        for nonce in [0usize, 32, 9000] {
+            let m = c11::channel_message(kind, nonce);
+            let (nid, bytes) = c11::message_bytes(&m);
+            out.push(format!("mwrite 9 {} x{}", nid, hex(&bytes)));
+            out.push("mtake".to_string());
+        }
+    }
+    // MessageWriter: body around max_message_size, chunk around the scratch buffer (buffer + 1024), growing buffer
+    let mut rng = Rng::new(11);
+    for (bs, mm, total) in [
+        (100usize, 0usize, 1099usize), (100, 0, 1100), (100, 0, 1101), (100, 0, 1102), (100, 0, 60), (100, 0, 200),
+        (0, 0, 999), (0, 0, 1000), (0, 0, 1001), (8196, 99, 104), (8196, 100, 104), (8196, 101, 104), (8196, 104, 104), (8196, 5000, 104),
+    ] {
+        for mc in [0usize, 1] {
+            out.push(format!("reset mw {} {} {} 1 1 {}", bs, mm, mc, b(total % 2 == 0)));
+            for _ in 0..2 {
+                let m = c11::read_request_padded(&mut rng, 0, Some(total));
+                let (nid, bytes) = c11::message_bytes(&m);
+                out.push(format!("mwrite 9 {} x{}", nid, hex(&bytes)));
+                out.push("mnext".to_string());
+            }
+            out.push("mtake".to_string());
+            out.push("mtake".to_string());
+        }
+    }
+}
+
 impl Prop for C12 {
     fn id(&self) -> &'static str {
         "C12"
     }
 
     fn gen(&self, rng: &mut Rng, n: usize, _tier: Tier, out: &mut Vec<String>) {
+        srv_conn::gen_systematic(&srv_conn::lens(), out);
+        gen_systematic(out);
         for _ in 0..n {
             match rng.weighted(&[5, 4, 2, 2, 4]) {
                 0 => gen_validate(rng, out),
@@ -299,11 +448,14 @@ fn chunk_headers(stream: &[u8]) -> Option<Vec<(u32, u32)>> {
             return None;
         }
         let size = u32::from_le_bytes(stream[p + 4..p + 8].try_into().unwrap()) as usize;
-        if size < 24 || p + size > stream.len() {
+        // the sequence header follows the security header: asymmetric (policy None: 59 bytes) in an OPN chunk,
+        // the 4-byte token id otherwise
+        let off = if &stream[p..p + 3] == b"OPN" { 12 + 59 } else { 12 + 4 };
+        if size < off + 8 || p + size > stream.len() {
             return None;
         }
-        let seq = u32::from_le_bytes(stream[p + 16..p + 20].try_into().unwrap());
-        let req = u32::from_le_bytes(stream[p + 20..p + 24].try_into().unwrap());
+        let seq = u32::from_le_bytes(stream[p + off..p + off + 4].try_into().unwrap());
+        let req = u32::from_le_bytes(stream[p + off + 4..p + off + 8].try_into().unwrap());
         out.push((seq, req));
         p += size;
     }
